@@ -9,6 +9,8 @@ non-ascending qubits.  Obligations per (class, set):
 The conditional omissions of _u3_to_gpi2 (l = 0, t = -pi, p = -pi) are separate obligations.
 Arbitrary one-/two-qubit unitaries (numerical ZYZ / KAK path) are exercised as a tolerance *test*
 (labelled as such; magic_decomposition is outside the proof, see DESIGN.md).
+harness/c10_streams.py: output stability / aliasing histories over every translation entry point, and the
+near-degenerate corpus of the numerical path (both test level).
 """
 STATIC = ["Base/TrigMat", "Spec/GateSpec"]
 import itertools
@@ -302,7 +304,10 @@ def kak_core(run, rng):
 
 
 RULE = ("one obligation per (gate class x native set) with symbolic parameters, all classes of gates.py x 8 native sets; "
-        "plus special parameter values of _u3_to_gpi2; plus random/degenerate unitaries as a tolerance test")
+        "plus special parameter values of _u3_to_gpi2; plus random/degenerate unitaries as a tolerance test; "
+        "plus near-degenerate two-qubit inputs (interaction angles 10^-k, pi/2-10^-k, near identity/SWAP/CNOT/product) with "
+        "operator-Schmidt lower bound on two-qubit natives; plus translate -> edit the result -> translate again histories "
+        "on canonical and non-ascending qubits with a deep snapshot of the module-level tables")
 
 
 def main(run):
@@ -321,12 +326,26 @@ def main(run):
     tables.run_items(run, controlled_items(run, run.tier), "C10_controlled", rng)
     kak_core(run, rng)
     unitary_test(run, rng, 160 if run.tier == "quick" else 2500)
+    from harness import c10_streams as cs
+    cs.h_vector_contract(run, rng)
+    cs.near_degenerate(run, rng)
+    cs.aliasing_stream(run, rng)          # last: it edits what the translations return
     return run.finish(rule=RULE)
 
 
 def replay(run, data):
     rng = random.Random(0)
     key = data["key"]
+    if key.startswith(("alias:", "translate_canonical:", "kak_near:", "kak_magic_basis:near", "kak_hvector:")):
+        from harness import c10_streams as cs
+        rep = data["replay"]
+        if key.startswith(("kak_near:", "kak_magic_basis:near")):
+            cs.replay_near(run, rep, key)
+        elif key.startswith("kak_hvector:"):
+            cs.h_vector_contract(run, rng)
+        else:
+            cs.aliasing_stream(run, rng, only=rep.get("class"))
+        return run.finish(rule="replay of one recorded history / near-degenerate input")
     items, rejected, native_bad = build_items(run, "thorough")
     items = items + controlled_items(run, "thorough")
     for sname, name, bad in native_bad:
